@@ -3,12 +3,15 @@
    their exchanges in a store keyed by message ID only (transactions/transaction_store.go), while
    the two sides choose message IDs independently.  Theorems: the refutations, with the witnesses
    that are replayed on the real code by every run of the check (corpus/gw.hist, client
-   histories).  No positive part is proved (what would remain true - exchanges whose message IDs
-   never coincide while live complete normally - is covered by the correspondence only). *)
+   histories).  The positive part for the gateway is proved as well (C06_gateway_only_interference_fails):
+   the ONLY failures the gateway model can produce are those of an exchange during whose life an
+   exchange of the other direction used the same message ID - every other exchange (no shared ID;
+   an ID reused by the same side; a retransmitted or superseding client exchange) gets its
+   acknowledgement relayed, in every history. *)
 From stdpp Require Import base option list numbers fin_maps nmap.
 From Verif.Base Require Import Bytes.
 From Verif.Codec Require Import Packets Decode Encode.
-From Verif.Gateway Require Import GwTypes GwStep GwWf GwWfDec.
+From Verif.Gateway Require Import GwTypes GwStep GwWf GwWfDec Sound_C06.
 From Verif.Client Require Import ClTypes ClStep.
 From Verif.Checkers Require Import ChkCodec ChkGw ChkGw4 ChkCl ChkCl3.
 Open Scope N_scope.
@@ -46,6 +49,16 @@ Proof. vm_compute. reflexivity. Qed.
 
 (* Client library: a QoS 2 PUBLISH from the gateway must be answered with PUBREC of its message ID
    whatever the client's own exchanges (chk_C06c, Checkers/ChkCl3.v). *)
+(* The monitor's clause codes: c in 1..4 when an exchange of the other direction with the same message ID
+   was in progress during the life of the failing exchange, 10 + c when there was none, 20 + c when a
+   client exchange superseded an earlier unfinished client exchange with the same ID.  In EVERY history
+   (well-formed configuration and events, nothing else assumed) only the first kind occurs: *)
+Theorem C06_gateway_only_interference_fails :
+  forall cfg evs, wf_cfg cfg -> Forall wf_event evs ->
+    forall c, In c (mon6_run cfg (init_state cfg) mon6_init evs) -> c < 10.
+Proof. exact C06_only_interference_fails. Qed.
+Print Assumptions C06_gateway_only_interference_fails.
+
 Definition C06_client_statement : Prop :=
   forall cfg evs,
     (fix all (s : cl_state) (evs : list cl_event) : Prop :=
